@@ -382,6 +382,21 @@ def removal(rep, prog):
         rm = [x for d_ in def_chain(it, a[0]) for x in walk(d_) if x.get("k") == "CallExpr" and x.get("callee") == "std::remove_if"] if a else []      # original nodes (indexed)
         uncond = all(p_.get("k") not in ("IfStmt", "ForStmt", "WhileStmt", "CXXForRangeStmt") for p_, _s, _c in fi.ancestors(e))
         if not rm:
+            # erase(begin() + i) inside `for(i...; ...; i++)`: the element that follows slides into slot i; unless i is taken back
+            # (or not advanced) in the erasing iteration, that element is never tested
+            loop = fi.enclosing(e, ("ForStmt",))
+            if loop is not None and isinstance(loop.get("init"), dict) and loop["init"].get("decls") and a:
+                iv = loop["init"]["decls"][0]
+                at_i = any(x.get("k") == "DeclRefExpr" and (x.get("ref") or {}).get("did") == iv.get("did") for x in walk(a[0])) and "begin" in render(a[0])
+                inc = loop.get("inc")
+                advances = isinstance(inc, dict) and any(x.get("k") == "UnaryOperator" and "++" in x.get("op", "") and strip(x["c"][0]).get("k") == "DeclRefExpr" and strip(x["c"][0])["ref"].get("did") == iv.get("did") for x in walk(inc))
+                blk = fi.enclosing(e, ("CompoundStmt",))
+                taken_back = blk is not None and any((x.get("k") == "UnaryOperator" and "--" in x.get("op", "") or x.get("k") == "CompoundAssignOperator" and x.get("op") == "-=") and strip(x["c"][0]).get("k") == "DeclRefExpr" and strip(x["c"][0])["ref"].get("did") == iv.get("did") and fi.order[id(x)] > fi.order[id(e)] for x in walk(blk))
+                tests_pred = any(x.get("k") == "CXXMemberCallExpr" and x.get("callee") == "cell::is_below_min_vol" for c_, p_ in fi.guards(e) if p_ for x in walk(c_))
+                if at_i and advances and not taken_back and tests_pred:
+                    rep.violation("C04.removal", prog, it, e, "the cell behind an erased cell is never tested",
+                                  "solver::run_iteration erases cell_lst_[%s] inside 'for(...; %s++)' and still advances %s in that iteration: the cell that slides into the freed slot is skipped, so of two neighbouring cells that fall below their minimum volume in the same iteration the second one stays in the population (with a volume below the minimum) until a later iteration" % (iv.get("name"), iv.get("name"), iv.get("name")))
+                    return
             if any(x.get("k") == "CXXMemberCallExpr" and x.get("callee") == "cell::is_below_min_vol" for x in walk(it["body"])):
                 raise AnalysisBroken("solver::run_iteration: the cells below the minimum volume are removed by a hand-written loop (erase without std::remove_if): which cells it erases is not decided by this checker")
             why = "the erased range does not start at std::remove_if(...)"
